@@ -9,7 +9,7 @@ let run (line : string) : string =
   | "c" :: specs ->
       let parsed = List.mapi (fun i spec ->
         match String.split_on_char ':' spec with
-        | [n; t] -> (i, string_of_bytes (bytes_of_hex n), bytes_of_hex t)
+        | [n; t] | [n; t; _] (* third component: the logger kind, irrelevant to routing *) -> (i, string_of_bytes (bytes_of_hex n), bytes_of_hex t)
         | _ -> failwith "bad spec") specs in
       let ls = List.map (fun (i, name, tg) ->
         { lg_id = n_of_int i; lg_is_root = (name = "root"); lg_tags = trim_space tg (* injectAttribute trims the value *) }) parsed in
